@@ -299,6 +299,26 @@ func fragsBody(maxFrags int) nd.Body {
 	}
 }
 
+// blocks: whole block-level constructs one after the other, so that whatever a
+// decoder keeps from one block (offsets, nesting, fence state) meets the next
+// block under every single cut and bytewise delivery.
+var blocks = []string{"```\n\nxyz\n```\n", "```\nx\n```\n", "```go\ny\n```", "> ```\n> q\n> ```\n", "> a\n", ">> b\n> c\n", "a\n", "*a*\n", "\n", "```\n", "`` `\n"}
+
+func blocksBody(maxBlocks int) nd.Body {
+	return func(c *nd.Ctx) nd.Result {
+		n := 2 + c.Choose(maxBlocks-1, "nblocks")
+		var sb strings.Builder
+		for i := 0; i < n; i++ {
+			sb.WriteString(blocks[c.Choose(len(blocks), "block")])
+		}
+		s := sb.String()
+		c.Note("input %q, single cuts and bytewise", s)
+		res := nd.Result{Outcome: feature(s), NonTrivial: s}
+		res.Violation = checkInput(s, false)
+		return res
+	}
+}
+
 var longLens = []int{4095, 4096, 4097, 32767, 32768, 32769, 40000, 65535, 65536, 65537, 131073}
 var longPats = []string{"a", "*a ", "> ", "`", "a\xff", ">", "PRE:a", "PRE:a`"} // PRE: the long line stands inside a preformatted block
 
@@ -404,6 +424,7 @@ func init() {
 			return []drv.Part{
 				{Name: "strings", Desc: fmt.Sprintf("all strings of <= %d symbols x all chunkings", l), Body: stringsBody(l), CutDepth: 3, Budget: budget},
 				{Name: "fragments", Desc: fmt.Sprintf("all sequences of <= %d fragments", nf), Body: fragsBody(nf), CutDepth: 2, Budget: budget},
+				{Name: "blocks", Desc: fmt.Sprintf("all sequences of 2..%d whole blocks (preformatted with an empty first line, with an info string, unterminated, inside a quote; quotes; plain lines)", nf+1), Body: blocksBody(nf+1), CutDepth: 2, Budget: budget},
 				{Name: "long", Desc: "long lines around bufio.Scanner limits", Body: longBody, CutDepth: 2, Budget: budget},
 			}
 		},
